@@ -731,13 +731,54 @@ func rtcStorm(run *vk.Run, a childArgs) {
 				st, hdr, body, err := srv.Do("POST", "/group/r1/.whip", map[string]string{"Content-Type": "application/sdp"}, []byte(sdp))
 				if err == nil && st == 201 {
 					pc.SetRemoteDescription(webrtc.SessionDescription{Type: webrtc.SDPTypeAnswer, SDP: string(body)})
-					time.Sleep(time.Duration(r.IntN(200)) * time.Millisecond)
+					// media on the WHIP session: the server's OnTrack callback (a pion goroutine that
+					// reads the client's group and pushes the stream to the members) fires at the first
+					// RTP packet, which half of the sessions time to fall around the teardown
+					mstop := make(chan struct{})
+					var mwg sync.WaitGroup
+					for _, s := range pc.GetSenders() {
+						local, ok := s.Track().(*webrtc.TrackLocalStaticRTP)
+						if !ok {
+							continue
+						}
+						mwg.Add(1)
+						go func(local *webrtc.TrackLocalStaticRTP) {
+							defer mwg.Done()
+							for k := 0; k < 400; k++ {
+								select {
+								case <-mstop:
+									return
+								default:
+								}
+								var err error
+								if local.Kind() == webrtc.RTPCodecTypeAudio {
+									err = local.WriteRTP(vrtc.OpusPacket(uint16(k), uint32(k)*960, uint32(k)))
+								} else {
+									err = local.WriteRTP(vrtc.VP8Packet(uint16(k), uint32(k)*3000, uint16(k), 0, k%30 == 0, uint32(k), 30))
+								}
+								if err == nil {
+									run.Count("whip_rtp_written", 1)
+								}
+								time.Sleep(time.Millisecond)
+							}
+						}(local)
+					}
+					if r.IntN(2) == 0 {
+						time.Sleep(time.Duration(8+r.IntN(40)) * time.Millisecond)
+					} else {
+						time.Sleep(time.Duration(r.IntN(200)) * time.Millisecond)
+					}
 					if r.IntN(2) == 0 {
 						srv.Do("DELETE", hdr.Get("Location"), nil, nil)
 						run.Count("whip_sessions_deleted", 1)
 					} else {
 						run.Count("whip_sessions_abandoned", 1)
 					}
+					if r.IntN(2) == 0 {
+						time.Sleep(time.Duration(r.IntN(20)) * time.Millisecond)
+					}
+					close(mstop)
+					mwg.Wait()
 				}
 				pc.Close()
 				ops.Add(1)
